@@ -145,10 +145,18 @@ def run_session(cfg, csv_path, symbols, data_source=None, probe_signals=False, h
     r.alpha = alpha
     r.signals = signals
     r.sig = sig
-    bt = q.BacktestTradingSession(
-        start, end, universe, alpha, signals=signals, initial_cash=cfg['cash'], rebalance=cfg['rebalance'],
-        long_only=cfg['long_only'], fee_model=kit.fee_model(cfg['fee']),
-        burn_in_dt=None if cfg.get('burn_in') is None else cal.ts6(cfg['burn_in']), data_handler=dh, **kw)
+    try:
+        bt = q.BacktestTradingSession(
+            start, end, universe, alpha, signals=signals, initial_cash=cfg['cash'], rebalance=cfg['rebalance'],
+            long_only=cfg['long_only'], fee_model=kit.fee_model(cfg['fee']),
+            burn_in_dt=None if cfg.get('burn_in') is None else cal.ts6(cfg['burn_in']), data_handler=dh, **kw)
+    except Exception as e:                                       # noqa
+        # a configuration the session refuses to build: reported like a failure at the start instant
+        r.error = (type(e).__name__, str(e)[:200], start)
+        r.exc = e
+        r.bt = r.port = None
+        r.history, r.equity_curve, r.allocations, r.cash, r.holdings = [], [], [], None, {}
+        return r
     r.bt = bt
     port = bt.broker.portfolios[bt.portfolio_id]
     r.port = port
